@@ -704,7 +704,7 @@ def graph_roles(c):
 
 def rolename(roles, var):
     if var is None: return None
-    return roles.get(var, var.split('#')[0])
+    return roles.get(var, '~' + var.split('#')[0])          # no role: the spelling alone never stands for a role (a shadowing local of the same name is another value)
 
 def rule_random_graph(F, R):
     c = F.crate('random_graph_gen')
@@ -1216,10 +1216,15 @@ def rule_colour_vertices(F, R):
     roles = ROLES.get('augment_colors', {}); mroles = ROLES.get('main', {})
     # colour range 0..num_colors
     rng_ok = False
-    for e in walk(t['body']):
-        if e['k'] == 'Adt' and canon(e['adt']) == 'std::ops::Range':
-            lo = [f['expr'] for f in e['fields'] if f['name'] == 'start'][0]; hi = [f['expr'] for f in e['fields'] if f['name'] == 'end'][0]
-            if strip(lo).get('value') == '0' and rolename(roles, root_var(hi)) == 'num_colors' and strip(hi)['k'] == 'VarRef': rng_ok = True
+    import flow as _flow
+    fl_ = _flow.Flow(c)
+    pcol = [v for v, nm in roles.items() if nm == 'num_colors' and any(('pat' in p_ and unwrap_pat(p_['pat']).get('var') == v) for p_ in t['params'])]
+    rngs = []
+    _flow.scan(fl_, t['body'], {}, lambda x: x.get('k') == 'Adt' and canon(x.get('adt', '')) == 'std::ops::Range', rngs)
+    for e, env_ in rngs:
+        lo = [f['expr'] for f in e['fields'] if f['name'] == 'start'][0]; hi = [f['expr'] for f in e['fields'] if f['name'] == 'end'][0]
+        # the bound is the parameter itself (value provenance): a local of the same name computed from it (`num_colors.min(..)`) is not
+        if strip(lo).get('value') == '0' and pcol and fl_.ev(hi, env_) == ('param', pcol[0]): rng_ok = True
     R.count('L:colour-range'); R.obligation(rng_ok, 'L colour range')
     if not rng_ok: R.violation('random_graph_gen::augment_colors / L / colour range', 'L', 'colours must range over 0..num_colors')
     # names and maps
